@@ -190,6 +190,9 @@ pub trait DynWriter {
     /// `false` if the nesting does not implement `Arbitrary<W, String>`.
     fn write(&mut self, s: String) -> bool;
     fn stats(&self) -> [usize; 6];
+    /// Continues with a `Clone` of the writer (the original is dropped): every wrapper is `Clone`,
+    /// and a clone taken in mid-run carries on where the original stood.
+    fn swap_for_clone(&mut self);
 }
 
 struct Dw<T, C> {
@@ -205,6 +208,10 @@ macro_rules! dyn_writer {
             }
             fn write(&mut self, s: String) -> bool {
                 dyn_writer!(@write self, s, $arb)
+            }
+            fn swap_for_clone(&mut self) {
+                let c = self.w.clone();
+                self.w = c;
             }
             fn stats(&self) -> [usize; 6] {
                 [self.w.passed_steps(), self.w.skipped_steps(), self.w.failed_steps(), self.w.retried_steps(), self.w.parsing_errors(), self.w.hook_errors()]
@@ -354,10 +361,45 @@ pub fn zoo(i: usize, r: &[Rec]) -> (Box<dyn DynWriter>, Desc, &'static str) {
     }
 }
 
+/// Zoo entry `i` once more, composed the way user code does it: through the `WriterExt` methods
+/// (`writer.repeat_failed().fail_on_skipped()` ...) instead of the constructors. `Or` has no such
+/// method.
+pub fn zoo_ext(i: usize, r: &[Rec]) -> Option<Box<dyn DynWriter>> {
+    use cucumber::WriterExt as _;
+    let e = E::default;
+    let c2 = C2::default;
+    let (r0, r1) = (r[0].clone(), r[1].clone());
+    Some(match i {
+        0 => Box::new(Dw::<T1, E> { w: r0.fail_on_skipped(), cli: e() }),
+        1 => Box::new(Dw::<T2, E> { w: r0.fail_on_skipped_with(even_line as SkipPred), cli: e() }),
+        2 => Box::new(Dw::<T3, E> { w: r0.repeat_skipped::<W>(), cli: e() }),
+        3 => Box::new(Dw::<T3, E> { w: r0.repeat_failed::<W>(), cli: e() }),
+        4 => Box::new(Dw::<T5, E> { w: r0.repeat_if::<W, _>(hooks_and_pf as EvFilter), cli: e() }),
+        5 => Box::new(Dw::<T6, E> { w: r0.repeat_failed::<W>().fail_on_skipped(), cli: e() }),
+        6 => Box::new(Dw::<T7, C2> { w: r0.repeat_skipped::<W>().tee::<W, _>(r1.repeat_failed::<W>()), cli: c2() }),
+        7 => Box::new(Dw::<T8, C2> { w: r0.tee::<W, _>(r1), cli: c2() }),
+        8 => Box::new(Dw::<T9, C2> { w: r0.fail_on_skipped().tee::<W, _>(r1.repeat_failed::<W>()), cli: c2() }),
+        11 => Box::new(Dw::<T12, E> { w: r0.discard_arbitrary_writes(), cli: e() }),
+        12 => Box::new(Dw::<T13, E> { w: r0.discard_stats_writes(), cli: e() }),
+        13 => Box::new(Dw::<T14, C2> { w: r0.discard_arbitrary_writes().tee::<W, _>(r1), cli: c2() }),
+        14 => Box::new(Dw::<T15, C2> { w: r0.tee::<W, _>(r1.repeat_skipped::<W>()).fail_on_skipped(), cli: c2() }),
+        16 => Box::new(Dw::<T17, C2> { w: r0.tee::<W, _>(r1).repeat_failed::<W>(), cli: c2() }),
+        17 => Box::new(Dw::<T18, C2> { w: r0.discard_stats_writes().tee::<W, _>(r1.fail_on_skipped_with(even_line as SkipPred)), cli: c2() }),
+        18 => Box::new(Dw::<T5, E> { w: r0.repeat_if::<W, _>(all_events as EvFilter), cli: e() }),
+        19 => Box::new(Dw::<T19, C2> { w: r0.repeat_if::<W, _>(run_level as EvFilter).tee::<W, _>(r1), cli: c2() }),
+        _ => return None,
+    })
+}
+
 /// Runs one zoo entry over `stream`, with `writes[i]` = arbitrary string written before event i.
-pub fn check_entry(entry: usize, stream: &[Ev], writes: &[Option<String>], meta: &HashMap<usize, ScMeta>, leaf_stats: &[[usize; 6]]) -> Vec<Violation> {
+pub fn check_entry(entry: usize, stream: &[Ev], writes: &[Option<String>], meta: &HashMap<usize, ScMeta>, leaf_stats: &[[usize; 6]], clone_at: Option<usize>, ext: bool) -> Vec<Violation> {
     let recs: Vec<Rec> = leaf_stats.iter().map(|s| Rec { stats: *s, ..Rec::default() }).collect();
     let (mut w, desc, name) = zoo(entry, &recs);
+    if ext {
+        if let Some(we) = zoo_ext(entry, &recs) {
+            w = we;
+        }
+    }
     let mut interp = Interp::new(recs.len(), meta);
     let mut viol = vec![];
     for (i, e) in stream.iter().enumerate() {
@@ -365,6 +407,9 @@ pub fn check_entry(entry: usize, stream: &[Ev], writes: &[Option<String>], meta:
             if w.write(s.clone()) {
                 interp.write(&desc, s);
             }
+        }
+        if clone_at == Some(i) {
+            w.swap_for_clone();
         }
         w.handle(e.clone());
         interp.event(&desc, decode(e), "");
